@@ -39,18 +39,27 @@ package triple
 //@ func NewLiteralObject
 //@   ensures[value] result != nil && fresh(result) && result.l == l && result.n == nil && result.p == nil
 
+// The pooled scratch buffer of Triple.UUID always has 48 bytes.
+//@ pool bufPool: x != nil && len(deref(x)) == 48
 //@ props C06
+//@ func init$1
+//@   ensures[pool-element] result != nil && typeis(result, "*[]byte") && len(deref(unbox(result, "*[]byte"))) == 48
+
 //@ func (o *Object) UUID
-//@   pure
+//@   opt axioms ou-def
 //@   requires wfObj(o)
-//@   ensures result == ou(o) && len(result) == 16
-//@   trusted dispatches to the boxed value's UUID; subject of C06
+//@   ensures[dispatch] result == ite(o.l != nil, lu(o.l), ite(o.p != nil, pu(o.p), su(o.n)))
+//@   ensures[is-ou] result == ou(o) && len(result) == 16
 
 //@ func (t *Triple) UUID
-//@   trusted SHA-1 of the three component UUIDs; subject of C06
-//@   pure
+//@   opt axioms tu-def
 //@   requires wfTriple(t)
-//@   ensures result == tu(t) && len(result) == 16
+//@   ensures[hash-of-component-uuids] result == sha16(tripleEnc(su(t.s), pu(t.p), ou(t.o)))
+//@   ensures[is-tu] result == tu(t) && len(result) == 16
+
+//@ func (t *Triple) Equal
+//@   requires wfTriple(t) && wfTriple(t2)
+//@   ensures[equal-iff-same-uuid] result == (tu(t) == tu(t2))
 
 //@ props C15 C09
 //@ func (o *Object) Predicate
